@@ -113,7 +113,17 @@ def stepLine (d : D) (line : String) : D × String :=
     exec { d with tab := tb } (.track ps { method := parseMethod m, tob := parseTob t, noCommit := b01 nc, force := b01 f })
   | "carryin" :: t :: f :: ps => let (tb, ps) := d.tab.interns ps; exec { d with tab := tb } (.carryIn ps (parseTob t) (b01 f))
   | "recheck" :: m :: f :: ps => let (tb, ps) := d.tab.interns ps; exec { d with tab := tb } (.recheck ps (parseMethod m) (b01 f))
-  | "remove" :: a :: f :: ps => let (tb, ps) := d.tab.interns ps; exec { d with tab := tb } (.remove ps (b01 a) (b01 f))
+  | "remove" :: a :: f :: ps =>
+    -- selection: `0` current version, `1` all versions, `only:<path>:<k>` the k-th recorded version of <path>
+    let (tb, ps) := d.tab.interns ps
+    let (tb, sel) : Tab × RemoveSel :=
+      match a.splitOn ":" with
+      | ["only", p, k] =>
+        let (t, p) := tb.intern p
+        let dg : Option Digest := (d.st.findEnt p).bind (fun e => (d.st.recs e).bind (fun r => r.digests[k.toNat?.getD 0]?))
+        (t, .only (dg.getD ⟨999, []⟩))          -- a version index out of range designates nothing
+      | _ => (tb, if b01 a then .all else .current)
+    exec { d with tab := tb } (.remove ps sel (b01 f))
   | "untrack" :: ps => let (tb, ps) := d.tab.interns ps; exec { d with tab := tb } (.untrack ps)
   | "untrackr" :: nb :: rest =>
     -- untrack --restore-versions; `nb` blocked copies follow as (path, version index) pairs, then the targets
@@ -174,6 +184,35 @@ def stepLine (d : D) (line : String) : D × String :=
       let listing := keys.filterMap (fun k => (st'.objs k).map (fun b => s!"{k.1}:{showAddr tb k.2}={fp b}"))
       ({ d with tab := tb, storage := st', skeys := keys }, "st={" ++ ";".intercalate (sortStrs listing) ++ "}")
     | none => (d, "bad-op")
+  | "sremove" :: g :: a :: f :: nh :: rest =>
+    -- remove --from-storage: selection and force as for `remove`; `nh` (path, version index) pairs give the order
+    -- of the cache path strings (which the model does not know); then the targets
+    match g.toNat?, nh.toNat? with
+    | some g, some nh =>
+      let hint := rest.take (2 * nh)
+      let (tb, ps) := d.tab.interns (rest.drop (2 * nh))
+      let resolve (tb : Tab) (p : String) (k : String) : Tab × Option Addr :=
+        let (t, p) := tb.intern p
+        (t, (d.st.findEnt p).bind (fun e => (d.st.recs e).bind (fun r => (r.digests[k.toNat?.getD 0]?).map (addrOf r.path))))
+      let rec hints (tb : Tab) : List String → Tab × List Addr
+        | p :: k :: r => let (t, a) := resolve tb p k; let (t, as) := hints t r; (t, a.toList ++ as)
+        | _ => (tb, [])
+      let (tb, order) := hints tb hint
+      let (tb, sel) : Tab × RemoveSel :=
+        match a.splitOn ":" with
+        | ["only", p, k] =>
+          let (t, p) := tb.intern p
+          let dg : Option Digest := (d.st.findEnt p).bind (fun e => (d.st.recs e).bind (fun r => r.digests[k.toNat?.getD 0]?))
+          (t, .only (dg.getD ⟨999, []⟩))
+        | _ => (tb, if b01 a then .all else .current)
+      -- sort the deletable paths by their position in the hint (stable; unknown ones last)
+      let pos (x : Addr) : Nat := (order.idxOf? x).getD order.length
+      let sortBy (l : List Addr) : List Addr :=
+        l.foldr (fun x acc => let (lo, hi) := acc.partition (fun y => pos y < pos x); lo ++ [x] ++ hi) []
+      let (st', o) := d.st.removeFromStorage g d.storage ps sel (b01 f) sortBy
+      let listing := d.skeys.filterMap (fun k => (st'.objs k).map (fun b => s!"{k.1}:{showAddr tb k.2}={fp b}"))
+      ({ d with tab := tb, storage := st' }, s!"rc={showOut o} st=\{" ++ ";".intercalate (sortStrs listing) ++ "}")
+    | _, _ => (d, "bad-op")
   | "bring" :: tmp :: g :: m :: rest =>
     match g.toNat? with
     | some g =>
